@@ -117,6 +117,14 @@ def run_abort(case, chooser):
                 # passive port: the server keeps listening)
                 state["spare"] = None
                 if s.pasv_port is not None:
+                    # (white box: the server turns a second connection away while the first one is still unclaimed - if
+                    # the running transfer has taken its own, this one is kept for the next transfer)
+                    from vf.conform import connection_of
+                    conn = connection_of(rig, 0)
+                    try:
+                        state["spare_must_be_kept"] = conn is not None and not conn.future.data_connection.done()
+                    except Exception:
+                        state["spare_must_be_kept"] = False
                     try:
                         state["spare"] = s.peer.connect(s.pasv_port, s.host)
                     except ConnectionRefusedError:
@@ -264,7 +272,8 @@ def run_abort(case, chooser):
                     r = rig.ev(0, "RETR f")
                     cs = [c for c, _ in (r or [])]
                     served = cs == ["150", "226"] and bytes(d2.received) == payload(size)
-                    if not (served or cs in (["425"], ["150", "425"])) or s.closed():
+                    turned_away_ok = cs in (["425"], ["150", "425"]) and not state.get("spare_must_be_kept")
+                    if not (served or turned_away_ok) or s.closed():
                         problems.append({"kind": "followup-transfer-on-connection-made-in-advance", "codes": cs,
                                          "data": bytes(d2.received).decode("latin-1"), "session_closed": s.closed()})
                     r = rig.ev(0, "PWD")
